@@ -221,15 +221,7 @@ impl Constant {
             Constant::String(s) => RcDoc::text("string")
                 .append(RcDoc::line())
                 .append(RcDoc::text("\""))
-                .append(RcDoc::text(
-                    String::from_utf8(
-                        s.as_bytes()
-                            .iter()
-                            .flat_map(|c| escape_default(*c).collect::<Vec<u8>>())
-                            .collect(),
-                    )
-                    .unwrap(),
-                ))
+                .append(RcDoc::text(escape_string(s)))
                 .append(RcDoc::text("\"")),
             Constant::Unit => RcDoc::text("unit")
                 .append(RcDoc::line())
@@ -283,15 +275,7 @@ impl Constant {
             Constant::Integer(i) => RcDoc::as_string(i),
             Constant::ByteString(bs) => RcDoc::text("#").append(RcDoc::text(hex::encode(bs))),
             Constant::String(s) => RcDoc::text("\"")
-                .append(RcDoc::text(
-                    String::from_utf8(
-                        s.as_bytes()
-                            .iter()
-                            .flat_map(|c| escape_default(*c).collect::<Vec<u8>>())
-                            .collect(),
-                    )
-                    .unwrap(),
-                ))
+                .append(RcDoc::text(escape_string(s)))
                 .append(RcDoc::text("\"")),
             Constant::Unit => RcDoc::text("()"),
             Constant::Bool(b) => RcDoc::text(if *b { "True" } else { "False" }),
@@ -368,6 +352,23 @@ impl Constant {
                 .append(RcDoc::text("]")),
         }
     }
+}
+
+/// Escape a string such that the parser reads back exactly the same characters: ASCII
+/// characters are escaped individually, anything else is printed as is (escaping the UTF-8
+/// bytes one by one would be read back as one character per byte).
+fn escape_string(s: &str) -> String {
+    let mut escaped = String::with_capacity(s.len());
+
+    for c in s.chars() {
+        if c.is_ascii() {
+            escaped.extend(escape_default(c as u8).map(char::from));
+        } else {
+            escaped.push(c);
+        }
+    }
+
+    escaped
 }
 
 impl Type {
